@@ -48,6 +48,9 @@ pub mod prelude {
         ensures <OsString as PartialEqSpec<str>>::obeys_eq_spec(),
     {}
 
+    pub assume_specification<T: ?Sized, A: std::alloc::Allocator>[ <Box<T, A> as AsRef<T>>::as_ref ](b: &Box<T, A>) -> (r: &T)
+        ensures r == &**b;
+
     #[verifier::external_trait_specification]
     pub trait ExToString {
         type ExternalTraitSpecificationFor: std::string::ToString;
@@ -215,6 +218,63 @@ pub mod spec {
         }
     }
 
+    /// ix is the first ledger index at which exactly one of the two branches consumed the item
+    pub open spec fn first_diff(a: Seq<ItemState>, b: Seq<ItemState>, ix: int) -> bool {
+        &&& 0 <= ix < a.len() && ix < b.len()
+        &&& present(a[ix]) != present(b[ix])
+        &&& forall|j: int| 0 <= j < ix ==> present(#[trigger] a[j]) == present(b[j])
+    }
+
+    /// `out` is the winner's state in which every item the loser consumed and the winner left is marked Conflict(win)
+    /// (still present, so the leftover check fails the run); nothing else differs
+    pub open spec fn conflicts_saved(w: State, l: State, win: usize, out: State) -> bool {
+        &&& out.items == w.items && out.remaining == w.remaining && out.current == w.current && out.path == w.path && out.scope == w.scope
+        &&& out.comp_eq(w)
+        &&& out.item_state.len() == w.item_state.len()
+        &&& forall|i: int| 0 <= i < w.item_state.len() ==> #[trigger] out.item_state[i] ==
+                (if i < l.item_state.len() && present(w.item_state[i]) && !present(l.item_state[i]) { ItemState::Conflict(win) } else { w.item_state[i] })
+    }
+
+    /// spec of Message::combine_with as a relation
+    pub open spec fn combined(a: Message, b: Message, r: Message) -> bool {
+        &&& a is ParseFailure ==> r == a
+        &&& !(a is ParseFailure) && b is ParseFailure ==> r == b
+        &&& a is Missing && b is Missing ==> r is Missing && r->Missing_0@ == a->Missing_0@ + b->Missing_0@
+        &&& !(a is ParseFailure) && !(b is ParseFailure) && !(a is Missing && b is Missing) ==> r == (if catchable(a) { b } else { a })
+    }
+
+    /// The decision table of `or_else` (this_or_that_picks_first): `a`/`b` are the states the two branches left,
+    /// `ea`/`eb` their errors (None = success). `out` = Ok(true): first branch taken, Ok(false): second, Err: both failed.
+    pub open spec fn or_case(pre: State, a: State, ea: Option<Error>, b: State, eb: Option<Error>, out: Result<bool, Error>, post: State) -> bool {
+        if a.path.len() < b.path.len() {
+            // deeper path wins regardless of the outcome
+            post == b && (match eb { Some(e) => out == Err::<bool, Error>(e), None => out == Ok::<bool, Error>(false) })
+        } else if a.path.len() > b.path.len() {
+            post == a && (match ea { Some(e) => out == Err::<bool, Error>(e), None => out == Ok::<bool, Error>(true) })
+        } else {
+            match (ea, eb) {
+                (None, None) => {
+                    if pre.remaining == a.remaining && pre.remaining == b.remaining {
+                        out == Ok::<bool, Error>(true) && post == a
+                    } else if forall|ix: int| !first_diff(a.item_state@, b.item_state@, ix) {
+                        out == Ok::<bool, Error>(true) && post == a
+                    } else {
+                        exists|ix: int| #[trigger] first_diff(a.item_state@, b.item_state@, ix) && (
+                            if !present(a.item_state[ix]) { out == Ok::<bool, Error>(true) && conflicts_saved(a, b, ix as usize, post) }
+                            else { out == Ok::<bool, Error>(false) && conflicts_saved(b, a, ix as usize, post) })
+                    }
+                },
+                (Some(e1), Some(e2)) => post == pre && out is Err && combined(e1.0, e2.0, out->Err_0.0),
+                (None, Some(_)) => out == Ok::<bool, Error>(true) && post == a,
+                (Some(_), None) => out == Ok::<bool, Error>(false) && post == b,
+            }
+        }
+    }
+
+    pub open spec fn res_err<T>(r: Result<T, Error>) -> Option<Error> {
+        match r { Ok(_) => None, Err(e) => Some(e) }
+    }
+
     /// `post` is `pre` again (completion bookkeeping, when compiled in, is taken from `mid`)
     #[cfg(not(feature = "autocomplete"))]
     pub open spec fn restored(pre: State, mid: State, post: State) -> bool { post == pre }
@@ -301,6 +361,22 @@ pub mod lemmas {
         assert(vals.push(v).drop_last() =~= vals);
         assert(vals.push(v).last() == v);
         assert(iter_rel(p, catch, pre, len0, vals.push(v).drop_last(), mid, lenm));
+    }
+
+    pub proof fn lemma_count_presence(l1: Seq<ItemState>, l2: Seq<ItemState>, lo: int, hi: int)
+        requires l1.len() == l2.len(), forall|i: int| 0 <= i < l1.len() ==> present(#[trigger] l1[i]) == present(l2[i]),
+        ensures count_present(l1, lo, hi) == count_present(l2, lo, hi),
+        decreases hi - lo,
+    {
+        if lo < hi { lemma_count_presence(l1, l2, lo, hi - 1); }
+    }
+
+    /// marking conflicts keeps the ledger well formed and consumption monotone
+    pub proof fn lemma_conflicts_saved(pre: State, w: State, l: State, win: usize, out: State)
+        requires pre.wf(), w.wf(), step(pre, w), conflicts_saved(w, l, win, out),
+        ensures out.wf(), step(pre, out),
+    {
+        lemma_count_presence(w.item_state@, out.item_state@, w.scope.start as int, w.scope.end as int);
     }
 
     pub broadcast group ledger {
@@ -714,12 +790,7 @@ proof { axiom_os_eq_obeys(); assert(old(self).first_avail(ix as int)); }
 //@@ unit error.Error.combine_with tags=C10,C07
 //@@ ret r
 //@@ spec
-        ensures
-            self.0 is ParseFailure ==> r.0 == self.0,
-            !(self.0 is ParseFailure) && other.0 is ParseFailure ==> r.0 == other.0,
-            self.0 is Missing && other.0 is Missing ==> r.0 is Missing && r.0->Missing_0@ == self.0->Missing_0@ + other.0->Missing_0@,
-            !(self.0 is ParseFailure) && !(other.0 is ParseFailure) && !(self.0 is Missing && other.0 is Missing)
-                ==> r.0 == (if catchable(self.0) { other.0 } else { self.0 }),
+        ensures combined(self.0, other.0, r.0), // #delegates_to_Message_combine_with
 //@@ end
 
 //@@ fn src/error.rs | impl ParseFailure | fn exit_code
@@ -1143,6 +1214,74 @@ proof {
 //@@ insert before 1 `if let Some(last) = last {`
 proof { lemma_step_trans(*old(args), g_args, *args); }
 let ghost g_pl = *args;
+//@@ end
+
+
+// ---- assumed contracts (iterator-adapter code outside Verus' subset; checked within a bound by Kani unit K01)
+impl State {
+    #[verifier::external_body]
+    pub fn pick_winner(&self, other: &Self) -> (r: (bool, Option<usize>))
+        ensures
+            r.1 matches Some(ix) ==> first_diff(self.item_state@, other.item_state@, ix as int) && r.0 == !present(self.item_state[ix as int]),
+            r.1 is None ==> r.0 && forall|ix: int| !first_diff(self.item_state@, other.item_state@, ix),
+    { unimplemented!() }
+
+    #[verifier::external_body]
+    pub fn save_conflicts(&mut self, loser: &State, win: usize)
+        ensures conflicts_saved(*old(self), *loser, win, *final(self)),
+    { unimplemented!() }
+}
+
+//@@ fn src/structs.rs | fn this_or_that_picks_first
+//@@ unit structs.this_or_that_picks_first tags=C07,C08,C05
+//@@ ret r
+//@@ spec
+        requires
+            old(args).wf(), old(args_a).wf(), old(args_b).wf(),
+            step(*old(args), *old(args_a)), step(*old(args), *old(args_b)),
+        ensures
+            or_case(*old(args), *old(args_a), err_a, *old(args_b), err_b, r, *final(args)), // #decision_table
+            final(args).wf(), // #preserves_wf
+            step(*old(args), *final(args)), // #step
+//@@ insert after 1 `args_a.save_conflicts(args_b, win);`
+proof { lemma_conflicts_saved(*old(args), *old(args_a), *old(args_b), win, *args_a); }
+//@@ insert after 1 `args_b.save_conflicts(args_a, win);`
+proof { lemma_conflicts_saved(*old(args), *old(args_b), *old(args_a), win, *args_b); }
+//@@ end
+
+
+//@@ type src/structs.rs | struct ParseOrElse
+//@@ unit structs.ParseOrElse tags=
+//@@ attr
+#[verifier::reject_recursive_types(T)]
+//@@ end
+
+//@@ fn src/structs.rs | impl Parser for Box | fn eval
+//@@ unit structs.Box_dyn_Parser.eval tags=C07
+//@@ members
+    open spec fn pwf(&self) -> bool { (**self).pwf() }
+    open spec fn rel(&self, pre: State, r: Result<T, Error>, post: State) -> bool { (**self).rel(pre, r, post) }
+//@@ drop fn meta
+//@@ end
+
+//@@ fn src/structs.rs | impl Parser for ParseOrElse | fn eval
+//@@ unit structs.ParseOrElse.eval tags=C07,C08,C05
+//@@ members
+    open spec fn pwf(&self) -> bool { self.this.pwf() && self.that.pwf() }
+    /// both branches run on copies of the same state; `or_case` picks the result and the state
+    open spec fn rel(&self, pre: State, r: Result<T, Error>, post: State) -> bool {
+        exists|ra: Result<T, Error>, a: State, rb: Result<T, Error>, b: State, ea: Option<Error>, eb: Option<Error>, out: Result<bool, Error>|
+            #![trigger self.this.rel(pre, ra, a), self.that.rel(pre, rb, b), or_case(pre, a, ea, b, eb, out, post)]
+            self.this.rel(pre, ra, a) && step(pre, a) && self.that.rel(pre, rb, b) && step(pre, b)
+            && ea == res_err(ra) && eb == res_err(rb)
+            && or_case(pre, a, ea, b, eb, out, post)
+            && match out {
+                Ok(true) => ra is Ok && r == ra,
+                Ok(false) => rb is Ok && r == rb,
+                Err(e) => r == Err::<T, Error>(e),
+            }
+    }
+//@@ drop fn meta
 //@@ end
 
 }
